@@ -20,6 +20,7 @@ import (
 	"go/token"
 	"go/types"
 	"golang.org/x/tools/go/types/typeutil"
+	"strings"
 
 	"golang.org/x/tools/go/packages"
 )
@@ -340,5 +341,71 @@ func normalizeGoCalls(pkg *packages.Package) {
 			pkg.TypesInfo.Types[g.Call] = types.TypeAndValue{Type: types.NewTuple()}
 			return false
 		})
+	}
+}
+
+// normalizeHoistedRanges: `byKey := tx.Files(); ...; for k, v := range byKey` is, for every rule here, the loop
+// `for k, v := range tx.Files()` (the rules recognise what is iterated by the accessor call). When the ranged-over
+// expression is a local that is assigned exactly once, from a call of a method without arguments, the range
+// statement is given that call as its operand; the assignment stays where it is.
+func normalizeHoistedRanges(pkg *packages.Package) {
+	info := pkg.TypesInfo
+	for _, file := range pkg.Syntax {
+		for _, d := range file.Decls {
+			fd, ok := d.(*ast.FuncDecl)
+			if !ok || fd.Body == nil {
+				continue
+			}
+			ast.Inspect(fd.Body, func(x ast.Node) bool {
+				rs, ok := x.(*ast.RangeStmt)
+				if !ok {
+					return true
+				}
+				id, ok := ast.Unparen(rs.X).(*ast.Ident)
+				if !ok {
+					return true
+				}
+				o, ok := info.Uses[id].(*types.Var)
+				if !ok || o.IsField() || o.Pos() < fd.Pos() || o.Pos() > fd.End() {
+					return true
+				}
+				var rhs ast.Expr
+				n := 0
+				ast.Inspect(fd.Body, func(y ast.Node) bool {
+					switch st := y.(type) {
+					case *ast.AssignStmt:
+						for i, l := range st.Lhs {
+							if lid, ok := l.(*ast.Ident); ok && (info.Defs[lid] == o || info.Uses[lid] == o) {
+								n++
+								if len(st.Lhs) == len(st.Rhs) {
+									rhs = st.Rhs[i]
+								} else {
+									rhs = nil
+								}
+							}
+						}
+					case *ast.UnaryExpr:
+						if st.Op == token.AND {
+							if aid, ok := ast.Unparen(st.X).(*ast.Ident); ok && info.Uses[aid] == o {
+								n += 2 // its address is taken: not a plain value
+							}
+						}
+					}
+					return true
+				})
+				c, ok := ast.Unparen(rhs).(*ast.CallExpr)
+				if n != 1 || !ok || len(c.Args) != 0 {
+					return true
+				}
+				if _, isSel := ast.Unparen(c.Fun).(*ast.SelectorExpr); !isSel {
+					return true
+				}
+				if fn, _ := typeutil.Callee(info, c).(*types.Func); fn == nil || fn.Pkg() == nil || !strings.HasPrefix(fn.Pkg().Path(), modPrefix) {
+					return true
+				}
+				rs.X = c
+				return true
+			})
+		}
 	}
 }
